@@ -15,6 +15,7 @@ import math
 import multiprocessing as mp
 import os
 import random
+import shutil
 from fractions import Fraction
 from unittest import mock
 
@@ -24,6 +25,7 @@ from vlib import driver, fexpr
 from . import c09lib as L
 
 PROPS = ["MxlVerif.Props.C09"]
+MCSCAN_MODEL = True  # the driver's "mcscan" kind (Model/C09Par.lean::mcScan)
 TOL = 1e-9
 KINDS = ("ss", "tc", "proto", "ptc")
 
@@ -154,6 +156,34 @@ def gen_relaxing_case(rng, big=False):
     return case
 
 
+def gen_zerodiv_case(rng):
+    """FAILING ROWS THAT RAISE AT t = 0: a rate law `x / k` with the scanned `k` being 0 in some rows.  The scan workers
+    catch ZeroDivisionError to turn such a row into a NaN placeholder (`except ZeroDivisionError: res = Result(...)`);
+    the expression language of the Lean model has no division, so this stratum has no model side (oracle only)."""
+    n = rng.randint(1, 2)
+    vars_ = [[f"x{i}", {"v": rng.choice(VALS)}] for i in range(n)]
+    pars = [["kin", {"v": rng.choice(["1", "2", "1/2"])}], ["km", {"v": rng.choice(["1", "2", "1/2"])}]]
+    rxns = [["r_in", {"args": ["kin"], "e": ["a", 0], "st": [["x0", {"c": "1"}]]}],
+            ["r_out", {"args": [f"x{n - 1}", "km"], "e": ["a", 0], "den": ["a", 1], "st": [[f"x{n - 1}", {"c": "-1"}]]}]]
+    if n == 2:
+        rxns.append(["r_01", {"args": ["x0"], "e": ["*", ["c", "1/2"], ["a", 0]], "st": [["x0", {"c": "-1"}], ["x1", {"c": "1"}]]}])
+    content = {"vars": vars_, "pars": pars, "derived": [], "rxns": rxns, "surs": [], "readouts": []}
+    kind = rng.choice(["ss", "tc", "proto", "ptc"])
+    cols = ["km"] + (["x0"] if rng.random() < 0.4 else [])
+    nrows = rng.choice([1, 2, 3, 4])
+    zero = sorted(rng.sample(range(nrows), rng.randint(1, max(1, nrows // 2))))
+    rows = [[("0" if (c == "km" and i in zero) else rng.choice(["1", "2", "1/2"])) for c in cols] for i in range(nrows)]
+    case = {"content": content, "y0": None, "cols": cols, "rows": [[l, r] for l, r in zip(gen_labels(rng, nrows, kind == "ss"), rows)],
+            "kind": kind, "fail_rows": [], "order": [], "zerodiv_rows": zero,
+            "cfg": {"nss": 3, "h": "1/4", "fail": []} if rng.random() < 0.7 else None}
+    if kind in ("tc", "ptc"):
+        case["tps"] = rng.choice([["0", "1/2", "1"], ["1/4", "1/2"], ["1/2", "1", "3/2"]])
+    if kind in ("proto", "ptc"):
+        case["proto"] = [["1/2", [["kin", "1"]]], ["1", [["kin", "2"]]]][: rng.randint(1, 2)]
+        case["steps"] = rng.choice([1, 2, 3])
+    return case
+
+
 def gen_case(rng, tier_thorough=False, kind=None, big=False):
     if kind is None and rng.random() < 0.22:
         return gen_relaxing_case(rng, big)
@@ -208,6 +238,8 @@ def gen_case(rng, tier_thorough=False, kind=None, big=False):
         case["cfg"] = None
         case["fail_rows"] = []
     case["order"] = [rng.randrange(nrows) for _ in range(rng.randint(0, nrows + 1))]
+    # a result cache: an empty directory, or one the same scan has filled before (every row is then LOADED)
+    case["cache"] = rng.choice([None, None, None, "fresh", "warm"])
     return case
 
 
@@ -216,6 +248,7 @@ def gen_mcscan(rng):
     if case["cfg"] is not None:
         case["cfg"]["fail"] = []
     case["kind"] = "mcscan"
+    case["cache"] = None
     case["rows"] = [[i, r] for i, (_, r) in enumerate(case["rows"][:3])]
     case["order"] = []
     case["fail_rows"] = []
@@ -292,6 +325,8 @@ def euler_steps(case):
 def finalize(case):
     """turn fail_rows into the integrator's fail keys; False if the case leaves the exact range or the
     exact rational Euler iteration of the Lean model would blow up (numerator size grows like degree^steps)"""
+    if case.get("zerodiv_rows") is not None:
+        return True  # linear, no injected failures: nothing to prepare
     if case["cfg"] is None:
         # shipped integrator: linear models only (a polynomial rate law can blow up in finite time and
         # LSODA then crawls forever)
@@ -331,9 +366,32 @@ def _entry(variables, fluxes, varnames):
     return {"nan": False, "t": v["t"], "vars": v["cols"], "flux": f["cols"], "tf": f["t"]}
 
 
-def _state(m):
+def _read_state(m):
     return {"pars": sorted([k, float(v)] for k, v in m.get_parameter_values().items()),
             "init": sorted([k, float(v)] for k, v in m.get_initial_conditions().items())}
+
+
+def _state(m):
+    """parameter values and initial values of a model as STORED in it: read once through the getters as they answer
+    right now (possibly from the memoised cache) and once after a value-preserving edit, which makes the model rebuild
+    its cache from the stored objects.  Code that writes the stored objects behind the cache's back (a shallow copy
+    sharing `_variables` / the `Variable` objects) shows up as a difference between the two."""
+    from mxlpy.types import InitialAssignment
+
+    cached = _read_state(m)
+    for k, p in m.get_raw_parameters(as_copy=False).items():
+        if not isinstance(p.value, InitialAssignment):
+            m.update_parameter(k, p.value)
+            break
+    else:
+        for k, v in m.get_raw_variables(as_copy=False).items():
+            if not isinstance(v.initial_value, InitialAssignment):
+                m.update_variable(k, v.initial_value)
+                break
+    fresh = _read_state(m)
+    if fresh != cached:
+        fresh["answered_from_stale_cache"] = cached
+    return fresh
 
 
 def _table(case):
@@ -351,6 +409,18 @@ def _proto(case):
         steps.append((L.fl(Fraction(t) - prev), {k: L.fl(v) for k, v in pars}))
         prev = Fraction(t)
     return make_protocol(steps)
+
+
+_scratch = [0]
+
+
+def _scratch_dir():
+    from pathlib import Path
+
+    _scratch[0] += 1
+    d = Path(__file__).resolve().parent.parent / ".work" / f"c09cache-{os.getpid()}-{_scratch[0]}"
+    shutil.rmtree(d, ignore_errors=True)
+    return d
 
 
 def run_real(case, mode):
@@ -375,14 +445,29 @@ def run_real(case, mode):
         if kind == "proto":
             kw["time_points_per_step"] = case["steps"]
         name = {"ss": "steady_state", "tc": "time_course", "proto": "protocol", "ptc": "protocol_time_course"}[kind]
-        with L.quiet():
+        tmp = None
+        if case.get("cache"):
+            from mxlpy.parallel import Cache
+
+            tmp = _scratch_dir()
+            kw["cache"] = Cache(tmp_dir=tmp)
+
+        def call():
             if mode[0] == "mc":
-                res = getattr(mc, name)(m, mc_to_scan=table, max_workers=mode[1], **kw)
-            elif mode[0] == "seq":
-                res = getattr(scan, name)(m, to_scan=table, parallel=False, **kw)
-            else:
-                with mock.patch("multiprocessing.cpu_count", return_value=mode[1]):
-                    res = getattr(scan, name)(m, to_scan=table, parallel=True, **kw)
+                return getattr(mc, name)(m, mc_to_scan=table, max_workers=mode[1], **kw)
+            if mode[0] == "seq":
+                return getattr(scan, name)(m, to_scan=table, parallel=False, **kw)
+            with mock.patch("multiprocessing.cpu_count", return_value=mode[1]):
+                return getattr(scan, name)(m, to_scan=table, parallel=True, **kw)
+
+        try:
+            with L.quiet():
+                if case.get("cache") == "warm":
+                    call()  # fills the directory; the observed call below finds every row stored
+                res = call()
+        finally:
+            if tmp is not None:
+                shutil.rmtree(tmp, ignore_errors=True)
         # touch the lazily evaluated results in the requested order first
         raw = res.raw_results if kind == "ss" else list(res.raw_results.values())
         for i in case.get("order", []):
@@ -537,11 +622,19 @@ def run_oracle(case):
 
     if case["kind"] == "mcscan":
         return run_oracle_mcscan(case)
+    if case.get("cache") and len({l for l, _ in case["rows"]}) < len(case["rows"]):
+        return {"err": ["ValueError"]}  # results are stored per row label: a cache with repeated labels is refused
     try:
         kind = case["kind"]
         per_row = []
         for i in range(len(case["rows"])):
-            m, sim = _independent(case, i, case["cfg"])
+            try:
+                m, sim = _independent(case, i, case["cfg"])
+            except ZeroDivisionError:
+                # the exception class the scan workers turn into a failed result (`except ZeroDivisionError`): a
+                # FAILING ROW, to be shown as a NaN block.  This model cannot even name its columns (every query
+                # re-evaluates the rates): take them from the model as declared
+                m, sim = L.build_model(case["content"]), None
             varnames = set(m.get_variable_names())
             if sim is None:
                 # the independent run itself reports failure (integration failure / no steady state):
@@ -592,6 +685,8 @@ def model_request(case, mode, rng_seed=0):
     for k in ("tps", "proto", "steps"):
         if k in case:
             req[k] = case[k]
+    if case.get("cache"):
+        req["cache"] = case["cache"]
     if mode[0] == "seq":
         req["mode"] = "seq"
     elif mode[0] == "legacy":
@@ -644,14 +739,51 @@ def canon_model(resp, template, case=None):
     return res
 
 
+def model_request_mcscan(case, mode, rng_seed=0):
+    r = random.Random(rng_seed)
+    ids = label_ids(case)
+    return {"op": "c09", "kind": "mcscan", "content": case["content"], "y0": case["y0"], "cfg": case["cfg"],
+            "rows": [[ids[l], [[c, v] for c, v in zip(case["cols"], row)]] for l, row in case["rows"]],
+            "inner": [[i, [[c, v] for c, v in zip(case["inner"]["cols"], row)]] for i, row in enumerate(case["inner"]["rows"])],
+            "n": mode[1], "assign": [r.randrange(mode[1]) for _ in case["rows"]]}
+
+
+def canon_model_mcscan(resp, S, case):
+    """driver answer -> {"vars": ..., "flux": ..., "caller": ...} with S's column selection; NaN rows by shape"""
+    if "err" in resp:
+        return {"err": [resp["err"][0]]}
+    ok = resp["ok"]
+    back = {i: l for l, i in label_ids(case).items()}
+    out = {"vars": [], "flux": []}
+    for which in ("vars", "flux"):
+        for idx, (lab, inner_vals, view) in enumerate(ok["rows"]):
+            key = [_lab(back.get(int(lab), int(lab)))] + [L.qf(x) for x in inner_vals]
+            tmpl = S[which][idx][1] if idx < len(S.get(which, [])) else []
+            names = [n for n, _ in tmpl]
+            rows = [r for seg in view["segs"] for r in seg]
+            if view["nan"] or not rows:
+                out[which].append([key, sorted([n, "nan"] for n in names)])
+            else:
+                a = dict(rows[-1][1])
+                out[which].append([key, sorted([n, (L.qf(a[n]) if n in a else "missing")] for n in names)])
+
+    def st(j):
+        if "ok" in j:
+            return sorted([k, L.qf(v)] for k, v in j["ok"])
+        return {"err": j["err"][0]}
+
+    out["caller"] = {"pars": st(ok["caller"]["pars"]), "init": st(ok["caller"]["init"])}
+    return out
+
+
 def case_kind_ss(key):
     return isinstance(key, list)
 
 
 def reduce_nan(obs):
     """compare failing rows with the model by shape only (the model carries no NaN arithmetic)"""
-    if "err" in obs:
-        return obs
+    if "err" in obs or "res" not in obs:
+        return obs  # mc.scan_steady_state observations carry their failing rows by shape already
     out = []
     for key, e in obs["res"]:
         out.append([key, {"nan": True, "t": e["t"]} if e["nan"] else e])
@@ -709,6 +841,10 @@ def pool():
 
 def classify(case, mode, R, S):
     """which listed finding (if any) an R != S on this case can belong to"""
+    if case.get("zerodiv_rows") and R == {"err": ["ZeroDivisionError"]} and "res" in S:
+        # F-C09-3: a row that raises ZeroDivisionError at t = 0 takes the whole scan down (the placeholder itself
+        # cannot be built: Simulation.default asks the model for its parameter values, which evaluates the rates)
+        return "F-C09-3"
     if "res" not in R or "res" not in S or case["kind"] == "mcscan":
         return None
     if R.get("caller") != S.get("caller"):
@@ -737,13 +873,17 @@ def shape(case):
     c = case["content"]
     if case["kind"] == "mcscan":
         return f"mcscan-rows{len(case['rows'])}x{len(case['inner']['rows'])}-{'euler' if case['cfg'] else 'lsoda'}"
+    if case.get("zerodiv_rows") is not None:
+        return (f"zerodiv-{case['kind']}-rows{len(case['rows'])}-raising{len(case['zerodiv_rows'])}-"
+                f"{'euler' if case['cfg'] else 'lsoda'}")
     ia = sum(1 for _, v in c["pars"] if "ia" in v)
     vs = {k for k, _ in c["vars"]}
     scan_var = any(col in vs for col in case["cols"])
     return (f"{case['kind']}-cols{len(case['cols'])}-rows{min(len(case['rows']), 8)}{'+' if len(case['rows']) > 8 else ''}"
             f"-ia{min(ia, 2)}-{'scanvar' if scan_var else 'scanpar'}-{'euler' if case['cfg'] else 'lsoda'}"
             f"-fail{min(len(case.get('fail_rows', [])), 2)}{'-tol' if (case['cfg'] or {}).get('tol') else ''}"
-            f"{'-readout' if c.get('readouts') else ''}{'-surrogate' if c.get('surs') else ''}{'-' + label_kind(case)}")
+            f"{'-readout' if c.get('readouts') else ''}{'-surrogate' if c.get('surs') else ''}{'-' + label_kind(case)}"
+            f"{'-cache' + case['cache'] if case.get('cache') else ''}")
 
 
 def judge_case(ctx, case, modes, S, Rs, Ms):
@@ -778,14 +918,156 @@ def evaluate(ctx, cases_modes):
     reqs, where = [], []
     for ci, ((case, modes), (S, Rs)) in enumerate(zip(jobs, outs)):
         for mi, mode in enumerate(modes):
-            if ctx.driver_ok and case["cfg"] is not None and "res" in S and case["kind"] != "mcscan":
+            if ctx.driver_ok and case["cfg"] is not None and case["kind"] == "mcscan" and "vars" in S and MCSCAN_MODEL:
+                reqs.append(model_request_mcscan(case, mode, rng_seed=ci * 31 + mi))
+                where.append((ci, mi))
+            elif ctx.driver_ok and case["cfg"] is not None and ("res" in S or (case.get("cache") and "err" in S)) \
+                    and case["kind"] != "mcscan" and case.get("zerodiv_rows") is None:
                 reqs.append(model_request(case, mode, rng_seed=ci * 31 + mi))
                 where.append((ci, mi))
     answers = driver.call_batch(reqs, timeout=300.0) if reqs else []
     Ms = [[None] * len(modes) for _, modes in jobs]
     for (ci, mi), a in zip(where, answers):
-        Ms[ci][mi] = canon_model(a, outs[ci][0], jobs[ci][0])
+        if jobs[ci][0]["kind"] == "mcscan":
+            Ms[ci][mi] = canon_model_mcscan(a, outs[ci][0], jobs[ci][0])
+        else:
+            Ms[ci][mi] = canon_model(a, outs[ci][0], jobs[ci][0])
     return [(S, Rs, Ms[ci]) for ci, (S, Rs) in enumerate(outs)]
+
+
+# --------------------------------------------------------------------------- `parallelise` itself
+
+
+def gen_par_case(rng, with_timeout=False):
+    """a direct call of parallel.parallelise over `c09lib.toy_fn`: keys (distinct or repeated), inputs (some raise),
+    sequential / pool with 1-16 processes, no cache / empty directory / a directory that already holds some keys
+    (whatever is stored wins: the function is not called), and - pool only - inputs that exceed the timeout"""
+    n = rng.randint(0, 7)
+    keys = rng.sample(range(20), n)
+    if n > 1 and rng.random() < 0.25:
+        keys[rng.randrange(1, n)] = keys[0]  # a repeated key
+    xs = [rng.choice([0, 1, 2, 3, 5, 8, "1/2", "3/4"]) for _ in range(n)]
+    if n and rng.random() < 0.3:
+        xs[rng.randrange(n)] = rng.choice([-1, -2])  # raises
+    mode = ["seq"] if rng.random() < 0.4 and not with_timeout else ["par", rng.choice([1, 2, 3, 16])]
+    r = rng.random()
+    store = None if r < 0.4 else ([] if r < 0.6 else [[k, rng.choice([7, 9, 11])] for k in dict.fromkeys(rng.sample(keys + [97, 98], rng.randint(1, max(1, n))))])
+    case = {"kind": "parallelise", "inputs": [[k, str(x)] for k, x in zip(keys, xs)], "mode": mode, "store": store,
+            "timed_out": []}
+    if with_timeout and n:
+        slow = sorted(rng.sample(range(n), rng.randint(1, min(2, n))))
+        for i in slow:
+            case["inputs"][i][1] = "1000"
+        # a stored key is loaded, not run: it cannot time out
+        case["timed_out"] = [i for i in slow if store is None or case["inputs"][i][0] not in {k for k, _ in store}]
+        case["timeout"] = 2.0
+    return case
+
+
+def run_real_par(case):
+    from mxlpy.parallel import Cache, parallelise
+
+    tmp = None
+    try:
+        kw = {}
+        if case["store"] is not None:
+            tmp = _scratch_dir()
+            cache = Cache(tmp_dir=tmp)
+            tmp.mkdir(parents=True, exist_ok=True)
+            for k, v in case["store"]:
+                cache.save_fn(tmp / cache.name_fn(k), float(v))
+            kw["cache"] = cache
+        inputs = [(k, L.fl(x)) for k, x in case["inputs"]]
+        with L.quiet():
+            res = parallelise(L.toy_fn, inputs, parallel=case["mode"][0] != "seq",
+                              max_workers=case["mode"][1] if case["mode"][0] != "seq" else None,
+                              timeout=case.get("timeout"), **kw)
+        out = {"res": [[int(k), float(v)] for k, v in res]}
+        if case["store"] is not None:
+            cache = kw["cache"]
+            ks = list(dict.fromkeys([k for k, _ in case["store"]] + [k for k, _ in case["inputs"]]))
+            out["store"] = sorted([int(k), float(cache.load_fn(tmp / cache.name_fn(k)))] for k in ks if (tmp / cache.name_fn(k)).exists())
+        return out
+    except Exception as e:  # noqa: BLE001
+        return {"err": [type(e).__name__]}
+    finally:
+        if tmp is not None:
+            shutil.rmtree(tmp, ignore_errors=True)
+
+
+def oracle_par(case):
+    """declarative: what the mapping must be, input by input"""
+    keys = [k for k, _ in case["inputs"]]
+    stored = None if case["store"] is None else {k: float(v) for k, v in case["store"]}
+    if stored is not None and len(set(keys)) < len(keys):
+        return {"err": ["ValueError"]}
+    res, new = [], {}
+    for i, (k, x) in enumerate(case["inputs"]):
+        if stored is not None and k in stored:
+            res.append([k, stored[k]])
+        elif i in case["timed_out"]:
+            continue  # cancelled: no result (and nothing is stored)
+        elif Fraction(x) < 0:
+            return {"err": ["ValueError"]}
+        else:
+            res.append([k, float(2 * Fraction(x))])
+            new[k] = float(2 * Fraction(x))
+    out = {"res": res}
+    if stored is not None:
+        out["store"] = sorted([k, v] for k, v in {**stored, **new}.items())
+    return out
+
+
+def par_request(case, seed):
+    r = random.Random(seed)
+    n = case["mode"][1] if case["mode"][0] != "seq" else 1
+    return {"op": "c09", "what": "parallelise", "inputs": case["inputs"], "store": case["store"],
+            "parallel": case["mode"][0] != "seq", "n": n, "assign": [r.randrange(n) for _ in case["inputs"]],
+            "timed_out": case["timed_out"]}
+
+
+def canon_par(a):
+    if "err" in a["res"]:
+        return {"err": [a["res"]["err"][0]]}
+    out = {"res": [[int(k), L.qf(v)] for k, v in a["res"]["ok"]]}
+    if a.get("store") is not None:
+        out["store"] = sorted([int(k), L.qf(v)] for k, v in a["store"])
+    return out
+
+
+def _work_par(case):
+    import signal
+    import warnings
+
+    warnings.filterwarnings("ignore")
+    signal.signal(signal.SIGALRM, _alarm)
+    signal.alarm(180)
+    try:
+        S, R = oracle_par(case), run_real_par(case)
+        if case.get("timeout") and R != S:
+            # on an oversubscribed machine a task that takes microseconds can still miss a 2 s deadline: look again with
+            # a deadline three times as long before calling it a difference (the slow inputs sleep for ten minutes)
+            R = run_real_par(dict(case, timeout=3 * case["timeout"]))
+        return S, R
+    except JobTimeout:
+        raise RuntimeError("watchdog: parallelise case did not finish in 180 s: " + str(case)) from None
+    finally:
+        signal.alarm(0)
+
+
+def run_par_stratum(ctx, rng, thorough):
+    cases = [gen_par_case(rng) for _ in range(60 if thorough else 14)]
+    cases += [gen_par_case(rng, with_timeout=True) for _ in range(6 if thorough else 1)]
+    outs = list(pool().map(_work_par, cases, chunksize=1))
+    answers = driver.call_batch([par_request(c, 7 * i) for i, c in enumerate(cases)]) if ctx.driver_ok else [None] * len(cases)
+    for case, (S, R), a in zip(cases, outs, answers):
+        M = None if a is None else (canon_par(a) if "res" in a else {"driver": a})
+        if "err" in R:
+            M = None if M is None else ({"err": M["err"]} if "err" in M else M)
+        ctx.count(case, f"parallelise-{case['mode'][0]}-{'nocache' if case['store'] is None else ('empty' if not case['store'] else 'prefilled')}"
+                        f"{'-timeout' if case['timed_out'] else ''}{'-raises' if 'err' in S else ''}"
+                        f"{'-repkeys' if len({k for k, _ in case['inputs']}) < len(case['inputs']) else ''}", True)
+        ctx.judge(case, L.jnum(R), L.jnum(S), None if M is None else L.jnum(M), what="parallelise")
 
 
 def setup(ctx):
@@ -818,7 +1100,10 @@ def run(ctx):
     while len(cases) < n and tries < 20 * n:
         tries += 1
         big = (len(cases) % 15 == 14)
-        case = gen_mcscan(rng) if len(cases) % 9 == 8 else gen_case(rng, thorough, big=big)
+        if len(cases) % 11 == 10:
+            case = gen_zerodiv_case(rng)
+        else:
+            case = gen_mcscan(rng) if len(cases) % 9 == 8 else gen_case(rng, thorough, big=big)
         if finalize(case):
             cases.append(case)
         else:
@@ -829,6 +1114,7 @@ def run(ctx):
             case = gen_case(rng, True)
             if finalize(case):
                 cases.append(case)
+    run_par_stratum(ctx, rng, thorough)
     batch = 48
     for b in range(0, len(cases), batch):
         chunk = cases[b:b + batch]
@@ -865,6 +1151,13 @@ def corpus():
         c = {"content": plain, "y0": None, "cols": ["x"], "rows": [[0, ["1"]], [1, ["2"]]], "kind": kind,
              "cfg": {"nss": 2, "h": "1/4", "fail": []}, "fail_rows": [1], "order": [], **extra}
         out.append(c)
+    # F-C09-3: a row whose rate divides by zero at t = 0
+    zd = {"vars": [["x0", {"v": "1"}]], "pars": [["kin", {"v": "1"}], ["km", {"v": "1"}]], "derived": [], "surs": [], "readouts": [],
+          "rxns": [["r_in", {"args": ["kin"], "e": ["a", 0], "st": [["x0", {"c": "1"}]]}],
+                   ["r_out", {"args": ["x0", "km"], "e": ["a", 0], "den": ["a", 1], "st": [["x0", {"c": "-1"}]]}]]}
+    for kind, extra in (("ss", {}), ("tc", {"tps": ["0", "1/2", "1"]})):
+        out.append({"content": zd, "y0": None, "cols": ["km"], "rows": [[0, ["1"]], [1, ["0"]], [2, ["2"]]], "kind": kind,
+                    "cfg": {"nss": 3, "h": "1/4", "fail": []}, "fail_rows": [], "order": [], "zerodiv_rows": [1], **extra})
     for c in out:
         assert finalize(c)
     return out
@@ -872,6 +1165,14 @@ def corpus():
 
 def replay(ctx, rp):
     case = rp["case"]
+    if case.get("kind") == "parallelise":
+        S, R = _work_par(case)
+        a = driver.call_batch([par_request(case, 0)])[0] if ctx.driver_ok else None
+        M = None if a is None else (canon_par(a) if "res" in a else {"driver": a})
+        print("S =", S, "\nR =", R, "\nM =", M)
+        ctx.count(case, "parallelise", True)
+        ctx.judge(case, L.jnum(R), L.jnum(S), None if M is None else L.jnum(M), what="parallelise")
+        return
     modes = case.get("modes") or [["seq"]]
     (S, Rs, Ms), = evaluate(ctx, [(case, modes)])
     print("S =", S)
